@@ -230,6 +230,23 @@ func evalNewJidPath(w *World, fn *ssa.Function, path []ssa.Instruction, ret *ssa
 					return
 				}
 			}
+			// i == len(T) - len(sep), with i the index of the first sep in T: nothing follows the separator
+			if x.Op == token.EQL || x.Op == token.NEQ {
+				for _, pr := range [][2]ssa.Value{{x.X, x.Y}, {x.Y, x.X}} {
+					t, sep, isIdx := e.indexCall(pr[0])
+					if !isIdx {
+						continue
+					}
+					if sub, ok := e.res(pr[1]).(*ssa.BinOp); ok && sub.Op == token.SUB {
+						if n, isN := intConst(sub.Y); isN && int(n) == len(sep) {
+							if lc, ok := e.res(sub.X).(*ssa.Call); ok && w.callKey(lc) == "builtin.len" && e.term(lc.Call.Args[0]) == e.term(t) {
+								setFact("nonempty(after("+e.term(t)+","+strconv.Quote(sep)+"))", (x.Op == token.NEQ) == truth)
+								return
+							}
+						}
+					}
+				}
+			}
 			k, isK := intConst(e.res(x.Y))
 			if !isK {
 				return
@@ -256,6 +273,10 @@ func evalNewJidPath(w *World, fn *ssa.Function, path []ssa.Instruction, ret *ssa
 			if t, sep, ok := e.indexCall(lhs); ok {
 				if pred(-1) != pred(0) && pred(0) == pred(1) && pred(1) == pred(1000) {
 					setFact("has("+e.term(t)+","+strconv.Quote(sep)+")", pred(0))
+				}
+				// i == 0 / i != 0 / i > 0: nothing / something precedes the separator
+				if pred(0) != pred(1) && pred(1) == pred(1000) {
+					setFact("nonempty(before("+e.term(t)+","+strconv.Quote(sep)+"))", pred(1))
 				}
 			}
 		}
@@ -420,6 +441,15 @@ func matchForm(w *World, v ssa.Value, path []ssa.Instruction, depth int) (s, p s
 		s, p, none, ok = matchForm(w, nv, path, depth+1)
 		return s, p, !none, ok
 	}
+	if call, isCall := v.(*ssa.Call); isCall {
+		if al := anyLoopOf(call.Call.StaticCallee()); al != nil {
+			for i, prm := range call.Call.StaticCallee().Params {
+				if prm == al.s && i < len(call.Call.Args) {
+					return call.Call.Args[i], call, false, true // any rune of s satisfies the loop's predicate
+				}
+			}
+		}
+	}
 	bo, isB := v.(*ssa.BinOp)
 	if !isB {
 		return nil, nil, false, false
@@ -467,11 +497,20 @@ func runePredicate(w *World, scope *ssa.Function, p ssa.Value) (*ssa.Function, f
 	case *ssa.MakeClosure:
 		mc = x
 	case *ssa.Call:
-		// a factory: isInvalid(table) returns a closure over its parameter
 		callee := x.Call.StaticCallee()
 		if callee == nil || callee.Blocks == nil {
 			return nil, nil
 		}
+		if anyLoopOf(callee) != nil {
+			// the loop function itself carries the predicate; its other parameters are bound by this call
+			for i, prm := range callee.Params {
+				if i < len(x.Call.Args) {
+					bind[prm] = x.Call.Args[i]
+				}
+			}
+			return callee, resolve
+		}
+		// a factory: isInvalid(table) returns a closure over its parameter
 		for i, prm := range callee.Params {
 			if i < len(x.Call.Args) {
 				bind[prm] = x.Call.Args[i]
@@ -542,11 +581,21 @@ func tableRunes(v ssa.Value) ([]rune, bool) {
 
 // c15Predicate: P(c) is true for every whitespace rune and for every rune of a table containing '@' and '/'.
 func c15Predicate(w *World, scope, pred *ssa.Function, resolve func(ssa.Value) ssa.Value) (okSpace bool, table []rune, okMember bool, why string) {
-	if len(pred.Params) != 1 {
-		return false, nil, false, "the predicate does not take one rune"
+	var c ssa.Value
+	start := entryLoc(pred)
+	var again func(ssa.Instruction) bool
+	if al := anyLoopOf(pred); al != nil {
+		// one iteration of the loop: from the rune of this iteration to `return true` or to the next rune (predicate false)
+		c = al.c
+		start = after(al.c.(ssa.Instruction))
+		again = func(in ssa.Instruction) bool { return in == ssa.Instruction(al.next) }
+	} else {
+		if len(pred.Params) != 1 {
+			return false, nil, false, "the predicate does not take one rune"
+		}
+		c = pred.Params[0]
 	}
-	c := pred.Params[0]
-	isC := func(v ssa.Value) bool { return v == ssa.Value(c) }
+	isC := func(v ssa.Value) bool { return v == c }
 	nSpaceTrue := 0
 	okSpace, okMember = true, true
 	nMemberTrue := 0
@@ -557,12 +606,14 @@ func c15Predicate(w *World, scope, pred *ssa.Function, resolve func(ssa.Value) s
 			tbl, haveTable = rs, true
 		}
 	}
-	err := walkPaths(entryLoc(pred), nil, nil, 20000, func(path []ssa.Instruction, end pathEnd) {
+	err := walkPaths(start, again, nil, 20000, func(path []ssa.Instruction, end pathEnd) {
 		ret, isRet := path[len(path)-1].(*ssa.Return)
-		if !isRet {
+		var rv ssa.Value = ssaFalse // going on to the next rune: the predicate was false for this one
+		if isRet {
+			rv = valueOnPath(rres(path, ret)[0], path)
+		} else if again == nil || !again(path[len(path)-1]) {
 			return
 		}
-		rv := valueOnPath(rres(path, ret)[0], path)
 		retTrue := false
 		if b, isB := boolConst(rv); isB {
 			retTrue = b
@@ -675,6 +726,9 @@ func c15Validators(w *World, r *Report) {
 		emptyOK := true
 		var predFn *ssa.Function
 		var resolve func(ssa.Value) ssa.Value
+		// a helper that is itself the rune loop is judged as "any rune satisfies P", not walked through
+		savedInline := inlineOK
+		inlineOK = func(f *ssa.Function) bool { return savedInline != nil && savedInline(f) && anyLoopOf(f) == nil }
 		err := walkPaths(entryLoc(fn), nil, nil, 20000, func(path []ssa.Instruction, end pathEnd) {
 			ret, isRet := path[len(path)-1].(*ssa.Return)
 			if !isRet {
@@ -730,6 +784,7 @@ func c15Validators(w *World, r *Report) {
 				bad = "the rune predicate is not a function literal the engine can see"
 			}
 		})
+		inlineOK = savedInline
 		if err != nil {
 			r.Undecided("R3", spec.key+"#table", w.pos(fn.Pos()), err.Error())
 			continue
@@ -760,4 +815,59 @@ func c15Validators(w *World, r *Report) {
 			r.Check(nEmpty > 0 && emptyOK, "R3", spec.key+"#empty", w.pos(fn.Pos()), "an empty domain is not rejected", "false for the empty string")
 		}
 	}
+}
+
+// anyLoop: fn is a hand-written "does any rune of s satisfy P": it ranges over a string parameter, returns true from
+// inside the loop and false when the string is exhausted. Returns the ranged parameter, the rune value of an iteration
+// and the Next instruction.
+type anyLoopInfo struct {
+	s    *ssa.Parameter
+	c    ssa.Value
+	next *ssa.Next
+}
+
+func anyLoopOf(fn *ssa.Function) *anyLoopInfo {
+	if fn == nil || fn.Blocks == nil {
+		return nil
+	}
+	var info *anyLoopInfo
+	n := 0
+	allInstrs(fn, func(in ssa.Instruction) {
+		nx, ok := in.(*ssa.Next)
+		if !ok || !nx.IsString {
+			return
+		}
+		n++
+		rg, ok := nx.Iter.(*ssa.Range)
+		if !ok {
+			return
+		}
+		p, ok := rg.X.(*ssa.Parameter)
+		if !ok {
+			return
+		}
+		for _, rf := range *nx.Referrers() {
+			if ex, ok := rf.(*ssa.Extract); ok && ex.Index == 2 {
+				info = &anyLoopInfo{s: p, c: ex, next: nx}
+			}
+		}
+	})
+	if n != 1 || info == nil {
+		return nil
+	}
+	// exhausted ⇒ false; the only other returns are `true` from inside the loop
+	ok := true
+	allInstrs(fn, func(in ssa.Instruction) {
+		rt, isRet := in.(*ssa.Return)
+		if !isRet || len(rt.Results) != 1 {
+			return
+		}
+		if _, isC := boolConst(rt.Results[0]); !isC {
+			ok = false
+		}
+	})
+	if !ok {
+		return nil
+	}
+	return info
 }
